@@ -19,7 +19,8 @@ Definition Known36 (d : dtd_doc) (el : name) (written : list (name * list piece)
   existsb (fun x => match ad_default x with Required => negb (is_written written (ad_name x)) | _ => false end)
           (defs_for d el).
 
-(** hypothesis: no attribute-list declaration declares a namespace declaration ([xmlns], [xmlns:p]) *)
+(** no attribute-list declaration declares a namespace declaration ([xmlns], [xmlns:p]): a hypothesis of the
+    theorems until /repo commit bf629dc (D67); kept for the examples *)
 Definition no_ns_defs (d : dtd_doc) (el : name) : Prop :=
   forall x, In x (defs_for d el) -> is_nsdecl (ad_name x) = false.
 
@@ -213,6 +214,7 @@ Qed.
 
 (** ** the defaulting loop *)
 Definition mrow (base : list m_node) (x : attdef) : list m_node :=
+  if m_namespace (ad_name x) then [] else
   if existsb (fun v => str_eqb (mn_name v) (ad_name x)) base then []
   else match ad_default x with
        | Implied => []
@@ -244,6 +246,7 @@ Proof.
     { rewrite existsb_app, (existsb_extra_false extra); [apply orb_false_r|].
       intros e He E. apply (Hex e He). left. symmetry. exact E. }
     cbn [m_defaults flat_map]. rewrite Hpres. unfold mrow at 1.
+    destruct (m_namespace (ad_name x)); [cbn [app]; apply IH; assumption|].
     destruct (existsb (fun v => str_eqb (mn_name v) (ad_name x)) base) eqn:Eb.
     + destruct (ad_default x); cbn [app]; apply IH; assumption.
     + destruct (ad_default x) as [| |fx lit].
@@ -282,10 +285,10 @@ Qed.
 
 (** ** the theorem *)
 Lemma rows_refine d el written :
-  simple_table (entities_of d) -> acyclic (entities_of d) -> no_ns_defs d el -> Known36 d el written = false ->
+  simple_table (entities_of d) -> acyclic (entities_of d) -> Known36 d el written = false ->
   map (m_observe d el) (m_attributes_nodes d el written) = map of_item (spec_attrs_items d el written).
 Proof.
-  intros Hs Hac Hns Hk.
+  intros Hs Hac Hk.
   unfold m_attributes_nodes, spec_attrs_items. rewrite att_defs_merged. fold (defs_for d el).
   set (defs := defs_for d el) in *.
   set (base := map (fun nl => {| mn_name := fst nl; mn_vals := snd nl; mn_from_dtd := false |})
@@ -301,8 +304,10 @@ Proof.
     apply (normalized_value_refines_f (entities_of d) Hs Hac).
   - (* defaults *)
     apply map_flat_map_ext. intros x Hx.
-    unfold mrow, base. rewrite (written_base written (ad_name x) (Hns x Hx)). fold (is_written written (ad_name x)).
-    rewrite (Hns x Hx), orb_false_r.
+    unfold mrow. rewrite namespace_is_nsdecl. destruct (is_nsdecl (ad_name x)) eqn:Hnsx.
+    { rewrite orb_true_r. destruct (ad_default x); reflexivity. }
+    unfold base. rewrite (written_base written (ad_name x) Hnsx). fold (is_written written (ad_name x)).
+    rewrite orb_false_r.
     destruct (is_written written (ad_name x)) eqn:Ew; [destruct (ad_default x); reflexivity|].
     assert (Hty : declaration_type (declaration_att_defs [] d el) (ad_name x) = Some (ad_type x)).
     { rewrite att_defs_merged. fold (defs_for d el). fold defs. unfold declaration_type.
@@ -321,17 +326,17 @@ Proof.
 Qed.
 
 Theorem attribute_set_refines_proof : forall d el written,
-  doc_wf d written -> no_ns_defs d el -> Known36 d el written = false ->
+  doc_wf d written -> Known36 d el written = false ->
   model_attrs d el written = map_ares (map of_item) (spec_attrs d el written).
 Proof.
-  intros d el written [Hf Hwf Hd Hw] Hns Hk. unfold model_attrs, spec_attrs.
+  intros d el written [Hf Hwf Hd Hw] Hk. unfold model_attrs, spec_attrs.
   destruct (doctype_checks d [] Hf Hwf Hd) as [H1 H2]. rewrite H1, H2. cbn [andb].
   assert (Hw1 : forallb (fun nl => m_refs_found (entities_of d) (snd nl)) written = true).
   { apply forallb_forall. intros nl Hnl. apply refs_found_ok; [exact Hwf|exact (Hw nl Hnl)]. }
   assert (Hw2 : forallb (fun nl => lit_expands (entities_of d) (snd nl)) written = true).
   { apply forallb_forall. intros nl Hnl. apply lit_expands_ok; [exact Hwf|exact (Hw nl Hnl)]. }
   rewrite Hw1, Hw2. cbn [map_ares bind]. f_equal.
-  apply rows_refine; [apply wf_simple_table; exact Hwf|apply wf_acyclic_table; exact Hwf|exact Hns|exact Hk].
+  apply rows_refine; [apply wf_simple_table; exact Hwf|apply wf_acyclic_table; exact Hwf|exact Hk].
 Qed.
 
 (** both [specified] flags of the model always agree (xml-info and xml-dom, after fix D54) *)
